@@ -42,7 +42,7 @@ HARNESSES = [
 TRUSTED = {
     r"kani::assume\(lo <= r && r <= hi\)": "O9: rand's documented contract for Rng::random_range(lo..=hi): the result r satisfies lo <= r <= hi "
                                            "(and it panics on an empty range: `lo <= hi` is asserted, not assumed). Pcg64/seed_from_u64 determinism is rand's.",
-    r"kani::assume\(w <= 64\)": "harness precondition: handle width <= 64 (doc comment of random_table::get; wider element types are outside this unit)",
+    r"kani::assume\(w <= 64\)": "harness precondition: handle width <= 64 (doc comment of random_table::get; the analyzer rejects $tb::random element types wider than 64 bits - analyzer test tb_random_element_type)",
     r"kani::assume\(len <= 2\)": "bound of the derive_seed stand-in: handle names of at most 2 octets",
 }
 TRUSTED.update(VL.STUB_TRUST)
